@@ -318,6 +318,17 @@ func ruleC18ReadPath(c *Ctx) {
 			// a mutating method of a container held in a field of a shared object (e.g. the
 			// copy-on-write symbol map): shared state changes even though no Store is visible here
 			cc := x.Common()
+			// append(shared.field, ...): when the shared slice has spare capacity the new element is written
+			// into the SHARED backing array (the result header is private, the element slot is not)
+			if bi, isBuiltin := cc.Value.(*ssa.Builtin); isBuiltin && bi.Name() == "append" && len(cc.Args) > 0 {
+				if ld, isLoad := cc.Args[0].(*ssa.UnOp); isLoad {
+					if fa, isFa := ld.X.(*ssa.FieldAddr); isFa {
+						addr = fa
+						break
+					}
+				}
+				return false
+			}
 			cal, _ := calleeOf(cc)
 			if cal == nil || cc.IsInvoke() || len(cc.Args) == 0 || cal.Type().(*types.Signature).Recv() == nil || !mutatorNames[cal.Name()] {
 				return false
